@@ -556,6 +556,14 @@ class ExprMixin:
             return BoundMethod(base, attr)
         if isinstance(base, VObj):
             return self.obj_attr(base, attr, node)
+        if type(base).__name__ == 'SuperProxy':
+            for c in base.mro:
+                if attr in c.__dict__:
+                    v = c.__dict__[attr]
+                    if isinstance(v, types.FunctionType):
+                        return BoundMethod(base.obj, attr, v)
+                    raise Unsupported('super() attribute that is not a method')
+            raise PyRaise(AttributeError, (attr,), node, implicit=True)
         if isinstance(base, Closure):
             raise Unsupported('attribute of closure')
         try:
